@@ -52,6 +52,24 @@ def isFilter : Ast → Bool
   | filter _ _ => true
   | _ => false
 
+/-- The one place where the builder model is knowingly inexact (DESIGN §10): `processFilter`'s merge
+rewrite mutates the query object `b.firstInput` points to.  When the filter's input is an axis node
+that object is the filter's own input and the model performs the rewrite; when the input is a function
+call, a literal or `/`, `firstInput` is *stale* — it points into a plan built earlier (a sibling
+operand, an enclosing step) — and Go rewrites that other plan in place.  Such expressions apply a
+predicate to something that is not a location step (outside XPath 1.0's well-typed expressions and
+outside every fragment of C01–C14); the driver reports their plan as `unmodelled` instead of
+comparing it. -/
+def staleFirstInputRisk : Ast → Bool
+  | filter i c => (match i with | call _ _ _ | str _ | num _ | root _ => true | _ => false)
+      || staleFirstInputRisk i || staleFirstInputRisk c
+  | axis _ i => staleFirstInputRisk i
+  | call _ _ args => staleFirstInputRisk args
+  | acons h t => staleFirstInputRisk h || staleFirstInputRisk t
+  | oper _ l r => staleFirstInputRisk l || staleFirstInputRisk r
+  | group x => staleFirstInputRisk x
+  | _ => false
+
 /-- a step with stacked predicates: `axis` under zero or more `filter`s -/
 def isStepChain : Ast → Bool
   | axis _ _ => true
